@@ -119,7 +119,7 @@ Definition open_file (c : ioctx) (n : N) : ioctx * res unit :=
   | (c1, None) =>
       match fs_get (c_fs c1) name with
       | Some (FFile _) => (ctx_ev c1 (EvOpenRw name), Ok tt)
-      | Some FDir => (c1, Err IoOther)          (* EISDIR *)
+      | Some FDir => (c1, Err IoIsADirectory)
       | _ => (c1, Err IoNotFound)
       end
   end.
@@ -341,7 +341,7 @@ Fixpoint gc_loop (c : ioctx) (files : list N) (referenced : N -> bool)
         match fs_get (c_fs c) name with
         | Some (FFile _) | Some FOther =>
             gc_loop (ctx_ev (ctx_fs c (fs_remove (c_fs c) name)) (EvUnlink name)) rest referenced
-        | Some FDir => (c, rest, Err IoOther)
+        | Some FDir => (c, rest, Err IoIsADirectory)
         | None => (c, rest, Err IoNotFound)
         end
   | _ => (c, files, Ok tt)
